@@ -5,6 +5,7 @@ import KitProofs.Lemmas.LocksContext
 import KitProofs.Lemmas.LocksContextProgress
 import KitProofs.Lemmas.LocksOuterCancel
 import KitProofs.Lemmas.LocksOuterCancelSlot
+import KitProofs.Lemmas.LocksOuterCancelOwn
 import KitModel.Generated.C13
 import KitProofs.Lemmas.LocksAcceptor
 /-!
@@ -639,6 +640,112 @@ example : ∃ s, Reach OuterCancel.lts (OuterCancel.init 2 2) s ∧ s.closed = f
       .sys 0 0, .tau 0 1, .ret 0 0, .call 1 .lock, .tau 1 1, .sys 0 1, .sys 0 0, .sys 0 0,
       .env .tick, .env .tick, .sys 2 0, .sys 2 0, .sys 0 0, .tau 1 1]) rfl,
     by decide, by decide, by decide, by decide⟩
+
+/-! ### A reader whose PARENT context ended is not a released reader and not a cancelled one
+
+Three separate reader facts in the model: `told t = some .own` (released: `rcancel` by its own release
+function), `told t = some (.timeout ..)` (cancelled by the lock with the configured cause, after the
+grace period) and `parentDone t` (the context passed to `RLock` ended: its cause is the parent's). -/
+
+/-- The end of the parent context is an environment event that touches nothing the writer path
+reads: registrations, `rcancel` reasons, grace goroutines, the clock, the slot, the handler. -/
+theorem outer_parent_end_is_no_cancellation (s s' : OuterCancel.State) (t : Tid)
+    (hs : OuterCancel.step s (.env (.cancelParent t)) = some s') :
+    s'.told = s.told ∧ s'.live = s.live ∧ s'.graces = s.graces ∧ s'.now = s.now ∧ s'.slot = s.slot ∧
+    s'.hpc = s.hpc ∧ s'.pcs = s.pcs ∧ s'.parentDone t = true := by
+  simp only [OuterCancel.step, OuterCancel.stepCore] at hs
+  simp at hs; subst hs; simp [upd]
+
+/-- … and it enables no step of any grace goroutine (select cases: timer, `closeCh`, `doneCh` — the
+regenerated fact `t1_select_shapes` pins exactly these three in the source) and no step of the
+handler inside a writer's section / `wg.Wait()`. -/
+theorem outer_parent_end_wakes_nobody (s : OuterCancel.State) (t i alt : Nat) :
+    ((OuterCancel.stepCore { s with parentDone := upd s.parentDone t true } (.sys (i + 2) alt)).isSome =
+      (OuterCancel.stepCore s (.sys (i + 2) alt)).isSome) ∧
+    (∀ w gw, (s.hpc = .slot w gw true ∨ s.hpc = .wait w gw) →
+      (OuterCancel.stepCore { s with parentDone := upd s.parentDone t true } (.sys 0 alt)).isSome =
+        (OuterCancel.stepCore s (.sys 0 alt)).isSome) :=
+  ⟨OuterCancel.grace_step_ignores_parent s t i alt,
+   fun w gw hh => OuterCancel.writer_section_ignores_parent s t w gw alt hh⟩
+
+/-- `outer_writer_waits_grace_for_unreleased_reader`: while running, whenever a writer is granted and
+a reader is still inside its hold (it has not called its release function) — WHATEVER the state of
+that reader's parent context — `rcancel` ran for it from a grace goroutine that a really requested
+writer hold `(w', gw)` launched at `st` and whose timer ran the whole grace period (`st + grace ≤
+now`): never "released", never shutdown, and never merely "its parent context ended". -/
+theorem outer_writer_waits_grace_for_unreleased_reader (n g : Nat) (s : OuterCancel.State)
+    (h : Reach OuterCancel.lts (OuterCancel.init n g) s) (hc : s.closed = false) (w t : Tid)
+    (hw : (s.pcs w).slotWriter = true) (ht : (s.pcs t).reading = true) :
+    ∃ st w' gw, s.told t = some (.timeout st (some (w', gw))) ∧ st + s.grace ≤ s.now ∧
+      0 < gw ∧ gw ≤ s.gen w' := by
+  obtain ⟨why, hwhy⟩ : ∃ why, s.told t = some why := by
+    have := no_reader_during_writer n g s h hc w t hw ht
+    cases htold : s.told t with
+    | none => simp [htold] at this
+    | some why => exact ⟨why, rfl⟩
+  have rc := reader_cancel_causes n g s h t why hwhy
+  have own := OuterCancel.owninv_reach n g s h
+  cases why with
+  | own =>
+    have := own.ow t hwhy
+    generalize s.pcs t = pc at ht this
+    cases pc <;> simp_all [OuterCancel.PC.reading, OuterCancel.PC.inRead]
+  | timeout st b =>
+    obtain ⟨h1, h2, h3⟩ := rc
+    cases b with
+    | none => have := h2 rfl; rw [hc] at this; cases this
+    | some p =>
+      obtain ⟨w', gw⟩ := p
+      exact ⟨st, w', gw, hwhy, h1, (h3 w' gw rfl).1, (h3 w' gw rfl).2⟩
+  | closed => simp only at rc; rw [hc] at rc; cases rc
+  | done => exact rc.elim
+
+/-- The same at the very step in which the handler answers the writer (`wg.Wait()` returned). -/
+theorem outer_writer_answered_after_grace_for_unreleased_reader (n g : Nat) (s s' : OuterCancel.State)
+    (w gw : Nat) (h : Reach OuterCancel.lts (OuterCancel.init n g) s) (hc : s.closed = false)
+    (hw : s.hpc = .wait w gw) (hs : OuterCancel.step s (.sys 0 0) = some s') (t : Tid)
+    (ht : (s.pcs t).reading = true) :
+    ∃ st w' gw', s.told t = some (.timeout st (some (w', gw'))) ∧ st + s.grace ≤ s.now ∧
+      0 < gw' ∧ gw' ≤ s.gen w' := by
+  obtain ⟨why, hwhy⟩ := outer_writer_after_readers n g s s' w gw h hc hw hs t ht
+  have rc := reader_cancel_causes n g s h t why hwhy
+  have own := OuterCancel.owninv_reach n g s h
+  cases why with
+  | own =>
+    have := own.ow t hwhy
+    generalize s.pcs t = pc at ht this
+    cases pc <;> simp_all [OuterCancel.PC.reading, OuterCancel.PC.inRead]
+  | timeout st b =>
+    obtain ⟨h1, h2, h3⟩ := rc
+    cases b with
+    | none => have := h2 rfl; rw [hc] at this; cases this
+    | some p =>
+      obtain ⟨w', gw'⟩ := p
+      exact ⟨st, w', gw', hwhy, h1, (h3 w' gw' rfl).1, (h3 w' gw' rfl).2⟩
+  | closed => simp only at rc; rw [hc] at rc; cases rc
+  | done => exact rc.elim
+
+/-- non-vacuity: reader 0 holds, its parent context ends, writer 1 arrives; it is granted only after
+the two ticks of the grace period, and reader 0 (still inside, parent done) was cancelled by the
+grace goroutine that writer 1's hold launched at time 0 -/
+example : ∃ s, Reach OuterCancel.lts (OuterCancel.init 2 2) s ∧ s.closed = false ∧
+    (s.pcs 1).slotWriter = true ∧ (s.pcs 0).reading = true ∧ s.parentDone 0 = true ∧
+    s.told 0 = some (.timeout 0 (some (1, 1))) ∧ s.now = 2 :=
+  ⟨_, Reach.of_run Reach.init (as := [.call 0 (.rlock false), .tau 0 2, .sys 0 1, .sys 0 0, .sys 0 0,
+      .sys 0 0, .tau 0 1, .ret 0 0, .env (.cancelParent 0), .probe 0 (.cancelled false), .call 1 .lock,
+      .tau 1 1, .sys 0 1, .sys 0 0, .sys 0 0,
+      .env .tick, .env .tick, .sys 2 0, .sys 2 0, .sys 0 0, .tau 1 1]) rfl,
+    by decide, by decide, by decide, by decide, by decide, by decide⟩
+
+/-- … and before the grace period has run (one tick only) neither the grace goroutine nor the
+handler can move: the writer keeps waiting although the reader's parent context has ended -/
+example : ∃ s, Reach OuterCancel.lts (OuterCancel.init 2 2) s ∧ s.parentDone 0 = true ∧ s.hpc = .wait 1 1 ∧
+    s.now = 1 ∧ (∀ alt, alt < 3 → OuterCancel.step s (.sys 2 alt) = none) ∧
+    OuterCancel.step s (.sys 0 0) = none :=
+  ⟨_, Reach.of_run Reach.init (as := [.call 0 (.rlock false), .tau 0 2, .sys 0 1, .sys 0 0, .sys 0 0,
+      .sys 0 0, .tau 0 1, .ret 0 0, .env (.cancelParent 0), .call 1 .lock,
+      .tau 1 1, .sys 0 1, .sys 0 0, .sys 0 0, .env .tick]) rfl,
+    by decide, by decide, by decide, by decide, by decide⟩
 
 /-- `error_holds_nothing` for OuterCancel while it is running: an `RLock` about to return an error
 (the context's error from the first select, or the error the handler answered) has no live
